@@ -228,7 +228,13 @@ def main(tier, seed):
         note_case('solve:' + mix, dict(op='solve', mix=mix, k=k, B=Bd.tolist(), **meta), D >= 2 and n >= 2)
         try:
             if mix == 'UU':
-                X = numpy.asarray(algopy.solve(mkU(Ad), mkU(Bd)).data)
+                if rng.random() < 0.4:
+                    # call form with a caller-supplied result buffer holding stale non-zero content (a reused preallocated result)
+                    buf = algopy.UTPM(numpy.array([[7.25 - d_ + 3 * p_ for p_ in range(P)] for d_ in range(D)])[:, :, None, None] + numpy.arange(n * k, dtype=float).reshape((n, k)))
+                    rep.count('call form', 'solve(A, B, out=prefilled buffer)')
+                    algopy.UTPM.solve(mkU(Ad), mkU(Bd), out=buf); X = numpy.asarray(buf.data)
+                else:
+                    X = numpy.asarray(algopy.solve(mkU(Ad), mkU(Bd)).data)
                 res = max(ps_residual([numpy.dot(A_obj[p], obj_mats(X)[p]) - obj_mats(Bd)[p]]) for p in range(P))
                 mk = lambda p: '(solveU %d %d %s %s %s : seq (mx K))' % (n, k, serlit(Ad, p), mxlit(invs[p]), serlit(Bd, p))
             elif mix == 'aU':
